@@ -36,6 +36,11 @@ def plans(b, quick):
     out.append((SJ.gen_cfg(b, 4, ["New", "Fit", "GetInstance", "Query"], init='Init', nobj=2, cfgs=b.cfgs,
                            data=list(b.valid)[:2], seeds=(), sizes=(2,), methods=list(b.methods)[:1]),
                 {'simulate': 'num=%d' % (60 if quick else 600), 'depth': 5}, 2))
+    # (c) option sets whose fit draws random numbers (KDE sample_size, selection_sample_size), seeded and unseeded models: with the
+    #     global generator set to the same state before the fit, a refitted model and a fresh one are the same model
+    if b.draw_cfgs:
+        out.append((SJ.gen_cfg(b, 4, ["New", "Fit", "GlobalSeed", "Query"], init='Init', nobj=1, cfgs=b.draw_cfgs,
+                               data=list(b.valid)[:2], seeds=(1,), sizes=(2,), methods=list(b.methods)[:1]), {}, 1))
     return out
 
 
